@@ -47,6 +47,10 @@ ObsV(o) == FxObs(o)
 SmUlp == Z(FALSE, <<1>>)                            \* 10^-12: the rounding of the 12-digit encoding of an observed float
 SmBivarMax == 80                                    \* biweight midvariance is compared with its formula for n <= 80 (TLC cost)
 
+(* TLC evaluates a function constructor lazily, element by element and again at every application; Force turns   *)
+(* it into a stored tuple (each element evaluated once)                                                            *)
+Force(s) == s \o <<>>
+
 (* ================================================================= P-layer: which bins ============ *)
 (* "computes each requested statistic over exactly the bins overlapping that segment" (skip_low: of the bins that    *)
 (* survive drop_low_coverage: log2 < NULL_LOG2_COVERAGE - MIN_REF_COVERAGE = -15, or depth == 0 when there is a      *)
@@ -57,11 +61,12 @@ UsedIdx(r) == {k \in 1..Len(r.bins) : ~(r.skip_low /\ IsLow(r, r.bins[k]))}
 Overlaps(b, s) == BinC(b) = SegC(s) /\ BinE(b) > SegS(s) /\ BinS(b) < SegE(s)
 BinsOfSegment(r, j) == {k \in UsedIdx(r) : Overlaps(r.bins[k], r.segs[j])}
 Sel(r, j) == SetToSortSeq(BinsOfSegment(r, j), <)             \* in table order
-ValsFx(r, idx) == [m \in 1..Len(idx) |-> FxGrid(BinLg(r.bins[idx[m]]), r.LU)]
+ValsFx(r, idx) == Force([m \in 1..Len(idx) |-> FxGrid(BinLg(r.bins[idx[m]]), r.LU)])
 (* "of their deviations from the segment log2": bin log2 minus the log2 column of the segment row *)
-DevsFx(r, idx, j) == [m \in 1..Len(idx) |-> FxGrid(BinLg(r.bins[idx[m]]) - SegLg(r.segs[j]), r.LU)]
+DevsFx(r, idx, j) == Force([m \in 1..Len(idx) |-> FxGrid(BinLg(r.bins[idx[m]]) - SegLg(r.segs[j]), r.LU)])
 
 (* ================================================================= P-layer: the statistics ============ *)
+SmMean(a) == ZDivTFast(ZSum(a), ZFromInt(Len(a)))                                \* = Stats.Mean, faster division
 SmSumSq(d) == ZSum([i \in 1..Len(d) |-> ZMul(d[i], d[i])])                     \* units 10^-24
 SmRad(d) == LET sx == ZSum(d) IN ZSub(ZMulInt(SmSumSq(d), Len(d)), ZMul(sx, sx))   \* n Sxx - Sx^2  (>= 0)
 (* population standard deviation  sqrt(n Sxx - Sx^2) / n   (numpy / pandas std with ddof = 0) *)
@@ -87,7 +92,7 @@ SmBivarFormulaOK(o, a) == \E m \in SmBilocAcceptable(a) : SmBivarFormulaAt(o, a,
 SmStatOK(name, o, a, d) ==
     LET n == Len(a) IN
     IF n = 0 THEN o.nan
-    ELSE CASE name = "mean"   -> ~o.nan /\ FxClose(ObsV(o), Mean(a), FxTol9)
+    ELSE CASE name = "mean"   -> ~o.nan /\ FxClose(ObsV(o), SmMean(a), FxTol9)
            [] name = "median" -> ~o.nan /\ ObsV(o) = Median(a)
               (* mode and p_ttest: VALUE NOT CLAIMED (KDE / Student t, DESIGN section 9); only what their definition    *)
               (* makes discrete: the mode is one of the bins' values, a p-value is NaN or lies in [0, 1]                *)
@@ -128,9 +133,9 @@ Enclosing(r, k) == {j \in 1..Len(r.segs) : LET s == r.segs[j]  b == r.bins[k] IN
                                             SegC(s) = BinC(b) /\ SegS(s) <= BinS(b) /\ BinE(b) <= SegE(s)}
 Enclosed(r, k) == r.hassegs => Enclosing(r, k) # {}
 TestedSet(r) == {k \in 1..Len(r.bins) : Enclosed(r, k) /\ (r.target_only => ~BinAnti(r.bins[k]))}
-ChromMedian2(r, c) == IMedian2(SegLgsOfChrom(r, c))
-SegLgsOfChrom(r, c) == LET idx == SelectSeq([k \in 1..Len(r.bins) |-> k], LAMBDA k : BinC(r.bins[k]) = c)
-                       IN [m \in 1..Len(idx) |-> BinLg(r.bins[idx[m]])]
+LgsOfChrom(r, c) == LET idx == SelectSeq([k \in 1..Len(r.bins) |-> k], LAMBDA k : BinC(r.bins[k]) = c)
+                    IN [m \in 1..Len(idx) |-> BinLg(r.bins[idx[m]])]
+ChromMedian2(r, c) == IMedian2(LgsOfChrom(r, c))
 (* twice the reference level / the residual, in units 1/LU (a median of an even count may fall on a half step) *)
 Ref2(r, k) == IF r.hassegs THEN 2 * SegLg(r.segs[CHOOSE j \in Enclosing(r, k) : TRUE])
               ELSE ChromMedian2(r, BinC(r.bins[k]))
@@ -158,11 +163,22 @@ PBracket(r, k) ==
 (*   q_i = min(1, min_{j : p_j >= p_i} n p_j / R_j),   R_j = #{k : p_k <= p_j}                                      *)
 (* (Stats.BHAdjust is the same on exact rationals).  BH is monotone and n/R_j-Lipschitz in p, so the 10^-12          *)
 (* encoding of the p-values moves a q by at most n * 10^-12.                                                        *)
-SmBHFx(ps) ==
-    LET n == Len(ps)
-        R == [j \in 1..n |-> Cardinality({k \in 1..n : ZLe(ps[k], ps[j])})]
-        term == [j \in 1..n |-> ZDivTFast(ZMulInt(ps[j], n), ZFromInt(R[j]))]
-    IN [i \in 1..n |-> FoldSet(LAMBDA j, acc : ZMin(acc, term[j]), FxOne, {j \in 1..n : ZLe(ps[i], ps[j])})]
+SmBHFx(ps0) ==
+    LET ps == Force(ps0)
+        n == Len(ps)
+        R == Force([j \in 1..n |-> Cardinality({k \in 1..n : ZLe(ps[k], ps[j])})])
+        term == Force([j \in 1..n |-> ZDivTFast(ZMulInt(ps[j], n), ZFromInt(R[j]))])
+    IN Force([i \in 1..n |-> FoldSet(LAMBDA j, acc : ZMin(acc, term[j]), FxOne, {j \in 1..n : ZLe(ps[i], ps[j])})])
+(* the same on exact rationals <<num, den>> with 0 <= num <= den <= 46340 (plain-integer cross-multiplication);     *)
+(* results <<Z num, Z den>>.  Identical to Stats.BHAdjust (checked in MC_Segmetrics), but every intermediate        *)
+(* vector is stored, so a vector of 200 p-values costs n^2 instead of n^3 comparisons.                              *)
+SmRatLe(p, q) == p[1] * q[2] <= q[1] * p[2]
+SmBHRat(ps0) ==
+    LET ps == Force(ps0)
+        n == Len(ps)
+        R == Force([j \in 1..n |-> Cardinality({k \in 1..n : SmRatLe(ps[k], ps[j])})])
+        term == Force([j \in 1..n |-> <<ZFromInt(n * ps[j][1]), ZFromInt(ps[j][2] * R[j])>>])
+    IN Force([i \in 1..n |-> FoldSet(LAMBDA j, acc : ZRatMin(acc, term[j]), <<ZOne, ZOne>>, {j \in 1..n : SmRatLe(ps[i], ps[j])})])
 RatFx(q) == ZDivTFast(FxFromZ(q[1]), q[2])           \* <<Z num, Z den>> -> fixed point (truncated)
 
 AlphaFx(r) == IF r.pick = 0 THEN FxFromRat(r.an, r.ad) ELSE ObsV(r.alpha)
@@ -173,9 +189,8 @@ NoDup(seq) == Cardinality(ToSet(seq)) = Len(seq)
 (* three-valued decision from the table alone (no logged p-value): BH of the upper / lower bracket ends bounds the  *)
 (* adjusted p from above / below *)
 BracketQ(r) ==
-    LET lo == [m \in 1..NT(r) |-> PBracket(r, TIdx(r)[m])[1]]
-        hi == [m \in 1..NT(r) |-> PBracket(r, TIdx(r)[m])[2]]
-    IN <<SmBHFx(lo), SmBHFx(hi)>>
+    LET br == Force([m \in 1..NT(r) |-> PBracket(r, TIdx(r)[m])])
+    IN <<SmBHFx([m \in 1..NT(r) |-> br[m][1]]), SmBHFx([m \in 1..NT(r) |-> br[m][2]])>>
 MustHit(q, m, alpha) == ZLt(ZAdd(q[2][m], FxTol9), alpha)
 MustMiss(q, m, alpha) == ZLe(ZAdd(alpha, FxTol9), q[1][m])
 LogOK(r) == /\ Len(r.p_raw) = NT(r) /\ Len(r.q_log) = NT(r) /\ Len(r.q1) = NT(r)
@@ -289,15 +304,15 @@ Holds(c, r) ==
          (* ---- p_adjust_bh on rationals: q_(i) = min(1, min_{j >= i} n p_(j) / j) *)
       [] c = "bh_exact" ->
             NoErr(r) => /\ Len(r.qs) = Len(r.ps)
-                        /\ LET want == BHAdjust(r.ps) IN
+                        /\ LET want == SmBHRat(r.ps) IN
                            \A i \in 1..Len(r.ps) : /\ ~r.qs[i].nan
                                                    /\ FxCloseAbs(ObsV(r.qs[i]), RatFx(want[i]), FxTol9)
                                                    /\ r.ps[i][1] = 0 => ZIsZero(ObsV(r.qs[i]))
       [] c = "bh_order" ->
             NoErr(r) => /\ Len(r.qrank) = Len(r.ps)
                         /\ \A i, j \in 1..Len(r.ps) :
-                             /\ (RatLeInt(r.ps[i], r.ps[j]) /\ RatLeInt(r.ps[j], r.ps[i])) => r.qrank[i] = r.qrank[j]
-                             /\ RatLeInt(r.ps[i], r.ps[j]) => r.qrank[i] <= r.qrank[j]
+                             /\ (SmRatLe(r.ps[i], r.ps[j]) /\ SmRatLe(r.ps[j], r.ps[i])) => r.qrank[i] = r.qrank[j]
+                             /\ SmRatLe(r.ps[i], r.ps[j]) => r.qrank[i] <= r.qrank[j]
 
 (* undecided by the table: some tested bin is neither a must-hit nor a must-miss (counted, never a violation) *)
 Undecided(c, r) ==
@@ -333,7 +348,7 @@ Premise(r) ==
             (* weight exactly 1 on a bin exactly at its segment's level: z = 0/0, the property's quotient is undefined *)
             /\ \A k \in TestedSet(r) : ~(BinW(r.bins[k]) = r.WU /\ Resid2(r, k) = 0)
       [] r.op = "bh" ->
-            \A i \in 1..Len(r.ps) : r.ps[i][2] > 0 /\ 0 <= r.ps[i][1] /\ r.ps[i][1] <= r.ps[i][2]
+            \A i \in 1..Len(r.ps) : r.ps[i][2] > 0 /\ 0 <= r.ps[i][1] /\ r.ps[i][1] <= r.ps[i][2] /\ r.ps[i][2] <= 46340
       [] OTHER -> FALSE
 
 (* ================================================================= A-layer ============ *)
@@ -392,7 +407,7 @@ MseCodeOld(d) == IF Len(d) = 1 THEN ZZero ELSE MseFromMean(d)
 StatCode(name, a, d) ==
     LET n == Len(a) IN
     IF n = 0 THEN SmNaN
-    ELSE CASE name = "mean"   -> SmVal(Mean(a))                                  \* np.mean -> Series.mean
+    ELSE CASE name = "mean"   -> SmVal(SmMean(a))                                 \* np.mean -> Series.mean
            [] name = "median" -> SmVal(Median(a))
            [] name = "mode"   -> SmVal(a[1])         \* KDE peak: not modelled (a data point; the constant on constant data)
            [] name = "p_ttest" -> SmNaN              \* Student t: not modelled
@@ -408,7 +423,9 @@ ToObs(x) == IF x.nan THEN [nan |-> TRUE, neg |-> FALSE, hi |-> 0, lo |-> 0]
 (* the seeded bootstrap -- an UNINTERPRETED kernel here (Mersenne Twister): the model answers [min, max]             *)
 SmMin(a) == LET t == FxSortAsc(a) IN t[1]
 SmMax(a) == LET t == FxSortAsc(a) IN t[Len(t)]
-StatNamesAll == <<"mean", "median", "mode", "p_ttest", "stdev", "mad", "mse", "iqr", "bivar", "sem">>
+(* the result's columns: the segments' own, then location, spread, ci, pi in that order *)
+ColsCode(r) == r.icols \o r.loc \o r.spr \o (IF Req(r, "ci") THEN <<"ci_lo", "ci_hi">> ELSE <<>>)
+               \o (IF Req(r, "pi") THEN <<"pi_lo", "pi_hi">> ELSE <<>>)
 ALayerSegmetrics(r) ==
     LET idx(j) == SelCode(r, j)
         col(name) == IF Req(r, name)
@@ -421,8 +438,7 @@ ALayerSegmetrics(r) ==
         cihi == itv(Req(r, "ci"), SmMax)
         bits == IF Req(r, "ci") THEN [j \in 1..NSeg(r) |-> <<0, 0, 0, 0, 0, 0>>] ELSE <<>>
     IN [err |-> "", err2 |-> "",
-        cols |-> r.icols \o r.loc \o r.spr \o (IF Req(r, "ci") THEN <<"ci_lo", "ci_hi">> ELSE <<>>)
-                 \o (IF Req(r, "pi") THEN <<"pi_lo", "pi_hi">> ELSE <<>>),
+        cols |-> ColsCode(r),
         osegs |-> r.segs, asegs |-> r.segs, cib |-> bits, cib2 |-> bits,
         out |-> [mean |-> col("mean"), median |-> col("median"), mode |-> col("mode"), p_ttest |-> col("p_ttest"),
                  stdev |-> col("stdev"), mad |-> col("mad"), mse |-> col("mse"), iqr |-> col("iqr"),
@@ -460,7 +476,7 @@ ALayerBH(r) ==
     LET q == BHCode([i \in 1..Len(r.ps) |-> FxFromRat(r.ps[i][1], r.ps[i][2])])
         qs == [i \in 1..Len(q) |-> ToObs(SmVal(q[i]))]
         (* dense ranks of the exact adjusted values (what the float ranks must be order-isomorphic to) *)
-        ex == BHAdjust(r.ps)
+        ex == SmBHRat(r.ps)
         rank(i) == Cardinality({RatFx(ex[j]) : j \in {x \in 1..Len(ex) : ~ZRatLe(ex[i], ex[x])}})
     IN [err |-> "", qs |-> qs, qrank |-> [i \in 1..Len(q) |-> rank(i)]]
 
@@ -473,7 +489,7 @@ ALayer(r) == CASE r.op = "segmetrics" -> ALayerSegmetrics(r)
 (* log2 column of the returned rows is the residual; one logged BH call per run                                    *)
 Drift(r) ==
     /\ NoErr(r)
-    /\ CASE r.op = "segmetrics" -> r.cols # ALayerSegmetrics(r).cols
+    /\ CASE r.op = "segmetrics" -> r.cols # ColsCode(r)
          [] r.op = "bintest" ->
               \/ r.t_ids # TestedCode(r)
               \/ r.hits # SelectSeq(r.t_ids, LAMBDA k : k \in ToSet(r.hits))
@@ -484,11 +500,15 @@ Drift(r) ==
 (* MseFromMean: mean_squared_error(initial=None) subtracts the mean (and answers 0 for a single value), so `mse`    *)
 (* is the variance of the deviations instead of their mean square.  Affected: some requested-mse segment whose       *)
 (* deviations do not sum to zero.                                                                                   *)
-KnownTriggers == {"MseFromMean"}
+(* NoBinInsideASegment: residuals() answers pd.Series([]) (dtype object) when no bin lies inside a segment (or the   *)
+(* bin table is empty), and z_prob then fails in scipy with a TypeError instead of do_bintest returning no bins.     *)
+KnownTriggers == {"MseFromMean", "NoBinInsideASegment"}
 TriggerHolds(t, r) ==
     CASE t = "MseFromMean" ->
             /\ r.op = "segmetrics" /\ Req(r, "mse")
             /\ \E j \in 1..NSeg(r) : LET idx == Sel(r, j) IN
                    Len(idx) >= 1 /\ ISum([m \in 1..Len(idx) |-> BinLg(r.bins[idx[m]]) - SegLg(r.segs[j])]) # 0
+      [] t = "NoBinInsideASegment" ->
+            r.op = "bintest" /\ {k \in 1..Len(r.bins) : Enclosed(r, k)} = {}
       [] OTHER -> FALSE
 =============================================================================
